@@ -27,18 +27,21 @@ PROPS = {
         design_ref="DESIGN.md section 4, C02",
     ),
     "C03": dict(
+        whole_units=("posix",),
         title="Offset, DST flag and abbreviation for an instant match the TZ data",
         verus=["tzif", "posix", ("posix", "_static", STATIC), "tzdispatch"],
         kani_quick=["c17_tzif", "c03_tzdt", "c17_posix", "c18_designation", "c03_posix_wrappers"], kani_thorough=[],
         design_ref="DESIGN.md section 4, C03",
     ),
     "C04": dict(
+        whole_units=("posix",),
         title="Civil-to-instant resolution finds gaps/folds exactly; strategies as documented",
         verus=["tzif", "posix", "ambig", "zoned", "tzdispatch"],
         kani_quick=["c03_tzdt"], kani_thorough=[],
         design_ref="DESIGN.md section 4, C04",
     ),
     "C14": dict(
+        whole_units=("posix",),
         title="Transition iterators yield exactly the instants where zone offset info changes",
         verus=["tzif", "posix", ("posix", "_static", STATIC), "tzdispatch"],
         kani_quick=["c03_posix_wrappers"], kani_thorough=[],
